@@ -165,6 +165,29 @@ func (r *c14Run) deliver(ctx sdk.Context, msg sdk.Msg) (err error) {
 	return err
 }
 
+// fingerprint: what the commitment keeper answers on ctx about configuration and both owners.
+func (r *c14Run) fingerprint(ctx sdk.Context) string {
+	k := r.w.App.CommitmentKeeper
+	var sb strings.Builder
+	vi, _ := k.GetVestingInfo(ctx, "ueden")
+	if vi != nil {
+		fmt.Fprintf(&sb, "vesting_info{N=%d max=%d factor=%s denom=%s}", vi.NumBlocks, vi.NumMaxVestings, vi.VestNowFactor, vi.VestingDenom)
+	} else {
+		sb.WriteString("vesting_info{nil}")
+	}
+	p := k.GetParams(ctx)
+	fmt.Fprintf(&sb, " enable_vest_now=%v infos=%d", p.EnableVestNow, len(p.VestingInfos))
+	for i := range r.addrs {
+		o := r.observe(ctx, i)
+		fmt.Fprintf(&sb, " owner%d{eden=%s elys=%s entries=%d", i, o.eden, o.elys, len(o.entries))
+		for _, e := range o.entries {
+			fmt.Fprintf(&sb, " [%s/%s/%d/%d]", e.TotalAmount, e.ClaimedAmount, e.StartBlock, e.NumBlocks)
+		}
+		sb.WriteString("}")
+	}
+	return sb.String()
+}
+
 func c14Key(st *c14State) string {
 	var sb strings.Builder
 	fmt.Fprintf(&sb, "h%d|%d/%d/%d", st.height, st.cfg.N, st.cfg.Max, st.cfg.Factor)
@@ -197,10 +220,34 @@ func (r *c14Run) dfs(ctx sdk.Context, st *c14State, depth, maxDepth int, path []
 		r.st.Incomplete = true
 		return
 	}
+	// ISOLATION: every child below runs on a branch that is DISCARDED (exactly what happens to a failed
+	// transaction, a failed multi-message proposal or a simulation). What the parent state shows through
+	// the keepers must be the same before and after each discarded branch — anything else is state kept
+	// outside the store.
+	fp0 := r.fingerprint(ctx)
+	last := -1
+	iso := func() {
+		if last < 0 || r.st.Polluted {
+			return
+		}
+		r.st.Clauses["discarded_branch_isolation"]++
+		if fp := r.fingerprint(ctx); fp != fp0 {
+			// the DEEPEST level notices first (it checks right after its own child returns): the culprit is exact
+			r.find(Finding{Clause: "discarded_branch_changed_what_the_parent_sees", Culprit: r.ops[last].Kind, Disc: "", Detail: fmt.Sprintf("after exploring and DISCARDING the branch of op %s, the keepers answer differently on the untouched parent state:\nbefore: %s\nafter:  %s", r.ops[last].Name, fp0, fp)}, append([]string{fmt.Sprintf("cfg:%d/%d/%d/root%d", r.cfg0().N, r.cfg0().Max, r.cfg0().Factor, c14root0)}, append(append([]string{}, path...), "discard:"+r.ops[last].Name)...))
+			r.st.Polluted = true // memory is tainted from here on: stop the unit, the worker rebuilds its world
+			r.st.Incomplete = true
+		}
+	}
+	defer iso()
 	for oi, op := range r.ops {
 		if depth == 0 && first >= 0 && oi != first {
 			continue
 		}
+		iso()
+		if r.st.Polluted {
+			return
+		}
+		last = oi
 		np := append(path, op.Name)
 		// each op runs at a block time unique to its depth so that entries have unique identities
 		c, _ := ctx.CacheContext()
@@ -525,7 +572,12 @@ func c14Worker(tier string) KUnitFunc {
 		if err := json.Unmarshal(raw, &u); err != nil {
 			return &KStats{HarnessErr: err.Error()}
 		}
-		return c14RunUnit(w, u, deadline, nil)
+		st := c14RunUnit(w, u, deadline, nil)
+		if st.Polluted {
+			w.Close()
+			w = NewWorld(FixtureCfg{})
+		}
+		return st
 	}
 }
 
@@ -570,6 +622,8 @@ func c14RunUnit(w *World, u c14Unit, deadline time.Time, fixedPath []string) *KS
 		// replay one path
 		ctx := base
 		for d, name := range fixedPath {
+			discard := strings.HasPrefix(name, "discard:")
+			name = strings.TrimPrefix(name, "discard:")
 			var op *c14Op
 			for i := range r.ops {
 				if r.ops[i].Name == name {
@@ -578,6 +632,20 @@ func c14RunUnit(w *World, u c14Unit, deadline time.Time, fixedPath []string) *KS
 			}
 			if op == nil {
 				return &KStats{HarnessErr: "unknown op " + name}
+			}
+			if discard {
+				// the op on a branch that is thrown away; the parent must read the same before and after
+				fp0 := r.fingerprint(ctx)
+				dc, _ := ctx.CacheContext()
+				dc = dc.WithBlockHeight(st.height).WithBlockTime(time.Unix(r.t0+int64(1000*(d+1)), 0).UTC())
+				ds := &c14State{owners: [2]*c14Owner{st.owners[0].clone(), st.owners[1].clone()}, cfg: st.cfg, height: st.height}
+				keep := r.st.Findings
+				r.apply(dc, ds, *op, fixedPath[:d+1])
+				r.st.Findings = keep // findings of the discarded branch itself are not the point here
+				if fp := r.fingerprint(ctx); fp != fp0 {
+					r.find(Finding{Clause: "discarded_branch_changed_what_the_parent_sees", Culprit: op.Kind, Disc: "", Detail: fmt.Sprintf("before: %s\nafter:  %s", fp0, fp)}, fixedPath[:d+1])
+				}
+				continue
 			}
 			c, _ := ctx.CacheContext()
 			c = c.WithBlockHeight(st.height).WithBlockTime(time.Unix(r.t0+int64(1000*(d+1)), 0).UTC())
